@@ -1,6 +1,6 @@
 (* C06 -- generated unit files read back exactly as generated; values cannot forge lines. *)
 From QV Require Import Model.Base Model.Quote Model.Unquote Model.PortRange Model.Unit Model.Lex Model.Parser Spec.Layout
-  Proofs.C01 Proofs.C03 Proofs.C06.
+  Model.Path Model.Names Model.Convert Model.Process Proofs.C01 Proofs.C03 Proofs.C06 Proofs.C06run.
 
 (* a unit whose section names are distinct, non-empty and free of ']' and newline, whose keys are non-empty key
    characters and whose raw values are validated, newline-free, without leading blank or trailing white space,
@@ -21,4 +21,28 @@ Proof. exact quote_value_no_ctl. Qed.
 Theorem C06_write_calls : forall u : unit, concat (write_calls u) = to_string u.
 Proof. exact write_calls_concat. Qed.
 
+(* ---- the generator clause, over the whole run: values cannot forge lines ---- *)
+(* whatever the unit files contain: every service that any of the seven converters produces in a run of the generator has no newline
+   in any section name, key or value (user entries: the parser never lets one in; generated entries: quote_value / quote_words never
+   emit a control character; keys and section names are literals) ... *)
+Theorem C06_generated_services_have_no_newline : forall podman exists_path kill_fixed mount_nl files p svc sp,
+  In (p, ROk svc sp) (snd (process_files podman exists_path kill_fixed mount_nl files)) -> no_nl_unit svc.
+Proof. intros. apply NoNL_is. eapply run_services_have_no_newline. eassumption. Qed.
+
+(* ... so the file written for it has exactly one physical line per entry and two per section: no value can add, split or swallow a line *)
+Theorem C06_generated_services_line_count : forall podman exists_path kill_fixed mount_nl files p svc sp,
+  In (p, ROk svc sp) (snd (process_files podman exists_path kill_fixed mount_nl files)) ->
+  count_nl (to_string svc) = (fold_right (fun s n => 2 + length (snd s) + n) 0 svc)%nat.
+Proof. exact run_services_line_count. Qed.
+
+(* the same for a single conversion of any unit without newlines in its names, keys and values *)
+Theorem C06_conversion_adds_no_newline : forall podman exists_path kill_fixed mount_nl u path t tbl svc sp tbl',
+  no_nl_unit u -> convert_one podman exists_path kill_fixed mount_nl u path t tbl = COk (svc, sp, tbl') -> no_nl_unit svc.
+Proof. intros podman ep kf mn u path t tbl svc sp tbl' Hu H. apply NoNL_is. eapply convert_nn; [apply NoNL_is; exact Hu|exact H]. Qed.
+
+Theorem C06_parsed_units_have_no_newline : forall text u, parse_unit text = Some u -> no_nl_unit u.
+Proof. intros text u H. apply NoNL_is. eapply parsed_units_have_no_newline. exact H. Qed.
+
 Check C06_roundtrip : forall u : unit, WF_unit u -> parse_unit (to_string u) = Some u.
+Check C06_generated_services_have_no_newline : forall podman exists_path kill_fixed mount_nl files p svc sp,
+  In (p, ROk svc sp) (snd (process_files podman exists_path kill_fixed mount_nl files)) -> no_nl_unit svc.
